@@ -23,7 +23,9 @@ TRUSTED = ["coq/Sect/Sections.v is a hand transcription of setup_render/_level_t
 ORACLES = {"O_mdit_blocks": "markdown-it produces heading/blockquote/list_item/fence tokens for the generated text as intended (every correspondence case)",
            "O_admonition": "the docutils note directive nested-parses its body into the admonition node (cases with {note})",
            "O_include": "MockIncludeDirective reads the scratch file and renders it in place with the given heading-offset (cases with {include})"}
-ASSUMPTIONS = ["heading levels are 1..6 plus a non-negative heading-offset", "docutils front end (the section machinery is shared with the Sphinx renderer)"]
+ASSUMPTIONS = ["heading levels are 1..6 plus non-negative heading-offsets (offsets of nested includes add up, fix 94acff7)",
+               "docutils front end in both tiers; the thorough tier repeats the correspondence through in-process Sphinx builds "
+               "({only} as the match_titles directive)"]
 
 
 def gen(ctx):
@@ -69,10 +71,13 @@ def indent(body, first, rest):
 class Renderer:
     """doc structure -> markdown files; numbers the headings in render order"""
 
-    def __init__(self):
+    def __init__(self, prefix="", ext=".md", titled="{verif-titled}"):
         self.files = {}
         self.nh = 0
         self.ninc = 0
+        self.prefix = prefix      # name prefix / extension of the included scratch files
+        self.ext = ext
+        self.titled = titled      # how a match_titles directive is written ("only} html{" trick not needed: see block)
 
     def blocks(self, bs):
         out = []
@@ -96,8 +101,8 @@ class Renderer:
             return "\n".join([("- " + body[0])] + [("  " + l if l else "") for l in body[1:]])
         if k in ("N", "T"):
             fence = "`" * (3 + fence_height(b[1]))
-            name = "note" if k == "N" else "verif-titled"
-            return fence + "{" + name + "}\n" + self.blocks(b[1] or [["P"]]) + "\n" + fence
+            head = "{note}" if k == "N" else self.titled
+            return fence + head + "\n" + self.blocks(b[1] or [["P"]]) + "\n" + fence
         if k == "D":
             name = b[1]
             fence = "`" * (3 + fence_height(b[2]))
@@ -128,7 +133,7 @@ class Renderer:
             head = "name" if kind == "div" else "{note}"
             return colons + head + "\n" + body + "\n" + colons
         if k == "I":
-            name = "inc%d.md" % self.ninc
+            name = "%sinc%d%s" % (self.prefix, self.ninc, self.ext)
             self.ninc += 1
             self.files[name] = None  # reserve (render order = numbering order)
             self.files[name] = self.blocks(b[2]) + "\n"
@@ -136,8 +141,8 @@ class Renderer:
         raise ValueError(k)
 
 
-def render_doc(doc):
-    r = Renderer()
+def render_doc(doc, **kw):
+    r = Renderer(**kw)
     main = r.blocks(doc) + "\n"
     return main, r.files
 
@@ -161,10 +166,10 @@ def enc_tree(bs):
         elif k == "I":
             out.append("I%d( " % b[1] + enc_tree(b[2]) + " )")
         elif k == "D" or (k == "X" and b[1] == "colon"):
-            # a directive body is rendered by nested_render_text with heading offset 0, the node appended afterwards
+            # a directive body is rendered by nested_render_text(heading_offset=0: the offset in force stays), node appended afterwards
             out.append("D0( " + enc_tree(b[2] or [["P"]]) + " )")
         elif k == "X" and b[1] == "div":
-            # render_colon_fence: current_node_context(container, append=True) around nested_render_text(content) (offset 0)
+            # render_colon_fence: current_node_context(container, append=True) around nested_render_text(content) (offset +0)
             out.append("C( I0( " + enc_tree(b[2] or [["P"]]) + " ) )")
         elif k == "X":
             out.append("C( C( " + enc_tree(b[2] or [["P"]]) + " ) )")
@@ -547,8 +552,103 @@ def corr(ctx):
             nd += 1
             if nd <= 20:
                 ctx.disagree("sections: " + bad[0], {"doc": doc}, bad[1], bad[2])
+    if ctx.tier == "thorough" or ctx.deep:
+        corr_sphinx(ctx)
     ctx.sample({"doc": docs[len(docs) // 2], "markdown": render_doc(docs[len(docs) // 2])[0]})
     ctx.sample({"doc": docs[-1], "markdown": render_doc(docs[-1])[0], "files": render_doc(docs[-1])[1]})
+
+
+# ------------------------------------------------------------------ Sphinx front end (thorough tier)
+
+SPHINX_D = ["admonition", "topic", "sidebar", "container", "compound", "epigraph", "tip", "warning"]
+
+
+def sphinx_docs(ctx, n):
+    import random
+    rng = random.Random("%s-sphinx-%s" % (ctx.seed, ctx.tier))
+    global _KINDS
+    saved = _KINDS
+    # under Sphinx: a fixed subset of directives, the MyST container tokens, {only} as the match_titles directive
+    # (footnote definitions are left out: the doctree Sphinx stores is the one after the footnote-collecting transform)
+    _KINDS = ([["D", k] for k in SPHINX_D] + [["X", k] for k in X_KINDS if k != "fn"], [])
+    try:
+        docs = [[["H", 3], ["H", 1], ["H", 3], ["Q", [["H", 2]]], ["P"], ["L", [["H", 1]]], ["N", [["H", 1]]], ["H", 2]],
+                [["H", 1], ["I", 2, [["H", 1], ["H", 2], ["I", 1, [["H", 1]]]]], ["P"], ["H", 2], ["Q", [["I", 0, [["H", 1]]]]]],
+                [["H", 1], ["H", 2], ["Q", [["P"], ["T", [["H", 2], ["P"]]]]], ["P"], ["H", 3]]]
+        for k in range(1, 4):
+            for seq in itertools.product(range(1, 7), repeat=k):
+                if k < 3 or rng.random() < 0.3:
+                    docs.append([["H", l] for l in seq])
+        while len(docs) < n:
+            docs.append(rand_blocks(rng, 3, True))
+    finally:
+        _KINDS = saved
+    return docs[:n]
+
+
+def run_sphinx_batch(docs):
+    """-> [(canonical tree, [myst.header messages], [other errors])] through an in-process Sphinx build"""
+    import shutil
+    from lib.impl import SphinxProject
+    files, names = {}, []
+    for k, doc in enumerate(docs):
+        main, inc = render_doc(doc, prefix="d%d_" % k, ext=".inc", titled="{only} html")
+        files["d%d.md" % k] = main
+        files.update(inc)
+        names.append("d%d" % k)
+    files["index.md"] = "# index\n"
+    proj = SphinxProject(files, conf="myst_enable_extensions = ['deflist', 'fieldlist', 'colon_fence']\n", builder="dummy")
+    res = proj.build(keep=True)
+    try:
+        env = res["app"].env
+        wl = [re.sub(r"\x1b\[[0-9;]*m", "", l) for l in res["warnings"].splitlines()]
+        out = []
+        for k, name in enumerate(names):
+            tree = canon_impl(env.get_doctree(name))
+            pat = re.compile(r"(?<![A-Za-z0-9_])d%d(_inc\d+\.inc|\.md)[^: ]*:" % k)
+            mine = [l for l in wl if pat.search(l)]
+            hw = [l for l in mine if "[myst.header]" in l]
+            other = [l for l in mine if "ERROR" in l or "SEVERE" in l or "CRITICAL" in l]
+            out.append((tree, hw, other))
+        return out
+    finally:
+        shutil.rmtree(os.path.dirname(res["src"]), ignore_errors=True)
+
+
+def corr_sphinx(ctx):
+    docs = sphinx_docs(ctx, ctx.budget(0, 900, 900))
+    if not docs:
+        return
+    lines = ["render\t" + enc_tree(doc) for doc in docs]
+    mouts = model_run_parallel(PID, lines)
+    nd = 0
+    for a in range(0, len(docs), 150):
+        part = docs[a:a + 150]
+        try:
+            res = run_sphinx_batch(part)
+        except Exception as e:
+            ctx.disagree("sphinx build", {"doc": part[0], "front_end": "sphinx"}, "!" + type(e).__name__ + ": " + str(e)[:300], "")
+            continue
+        for doc, mo, (itree, hw, other) in zip(part, mouts[a:a + 150], res):
+            ctx.corr_cases += 1
+            ctx.count("sphinx:doc")
+            mtree, mw = canon_model(mo)
+            bad = None
+            if itree != mtree:
+                bad = ("tree", itree, mtree)
+            else:
+                ip = warn_pairs(hw)
+                if ip is None:
+                    if len(hw) != len(mw):
+                        bad = ("warning count", len(hw), len(mw))
+                elif sorted(ip) != sorted(mw):
+                    bad = ("warnings", sorted(ip), sorted(mw))
+            if other and not bad:
+                bad = ("unexpected error", other[:2], [])
+            if bad:
+                nd += 1
+                if nd <= 10:
+                    ctx.disagree("sphinx sections: " + bad[0], {"doc": doc, "front_end": "sphinx"}, bad[1], bad[2])
 
 
 def _kinds(bs):
@@ -610,12 +710,10 @@ def expected_structure(doc):
             elif k in ("Q", "L"):
                 walk(b[1], off, True)
             elif k == "N":
-                walk(b[1], 0, True)        # a directive body is rendered with heading offset 0
-            elif k == "I":
-                walk(b[2], b[1], inside)   # an include is rendered in place with its own offset
-            elif k == "D" or (k == "X" and b[1] in ("div", "colon")):
-                walk(b[2], 0, True)        # any directive body / colon-fence div: heading offset 0
-            elif k == "X":
+                walk(b[1], off, True)      # documented reading: "offset all the heading levels" of the included document,
+            elif k == "I":                 # so offsets of nested includes add up and directive bodies keep the offset
+                walk(b[2], off + b[1], inside)
+            elif k == "D" or k == "X":
                 walk(b[2], off, True)
             elif k == "T":
                 skip(b[1])
